@@ -282,7 +282,7 @@ func TestVerifReplay(t *testing.T) {
 }
 `, o.Name, imports, strings.Join(elems, ", "), call, wantLine)
 	o.Witness = fmt.Sprintf("%s with params = []Value{%s}", call, strings.Join(elems, ", "))
-	rdir := filepath.Join(env.Verif, "replays", prop)
+	rdir := filepath.Join(env.Out, "replays", prop)
 	os.MkdirAll(rdir, 0o755)
 	base := filepath.Join(rdir, sanitizeSym(o.Name))
 	testFile := base + "_replay_test.go.txt"
